@@ -68,6 +68,7 @@ class RevolveCheckpointSchedule(CheckpointSchedule):
             raise RuntimeError("Invalid forward steps number.")
 
         snapshots = set()
+        last_reads = _last_reads(self._schedule)
         w_storage = None
         write_ics = False
         adj_deps = False
@@ -85,7 +86,7 @@ class RevolveCheckpointSchedule(CheckpointSchedule):
                         raise InvalidActionIndex
                     write_ics = True
                     adj_deps = False
-                    snapshots.add(w_n0)
+                    snapshots.add((w_storage, w_n0))
                 elif (w_cp_action == "Write_Forward"
                       or w_cp_action == "Write_Forward_memory"):
                     if w_n0 != n_1:
@@ -112,8 +113,8 @@ class RevolveCheckpointSchedule(CheckpointSchedule):
                   or cp_action == "Read_memory"
                   or cp_action == "Read_disk"):
                 self._n = n_0
-                if n_0 == self._max_n - self._r - 1:
-                    snapshots.remove(n_0)
+                if i in last_reads:
+                    snapshots.remove((storage, n_0))
                     yield Move(n_0, storage, StorageType.WORK)
                 else:
                     yield Copy(n_0, storage, StorageType.WORK)
@@ -335,6 +336,25 @@ class Revolve(RevolveCheckpointSchedule):
     def __init__(self, max_n, snapshots_in_ram, uf=1, ub=1, wd=2, rd=2):
         schedule = list(revolve(max_n - 1, snapshots_in_ram, wd, rd, uf, ub))
         super().__init__(max_n, snapshots_in_ram, 0, schedule)
+
+
+def _last_reads(schedule):
+    """Return the positions of the read operations which are the last use of
+    their checkpoint, i.e. which are not followed by another read of the same
+    step from the same storage level before that checkpoint is next written.
+    The checkpoint is deleted (moved rather than copied) at these positions.
+    """
+    last_reads = set()
+    read_later = set()
+    for i in range(len(schedule) - 1, -1, -1):
+        cp_action, (n_0, _, storage) = _convert_action(schedule[i])
+        if cp_action in ["Read", "Read_memory", "Read_disk"]:
+            if (storage, n_0) not in read_later:
+                last_reads.add(i)
+            read_later.add((storage, n_0))
+        elif cp_action in ["Write", "Write_memory", "Write_disk"]:
+            read_later.discard((storage, n_0))
+    return last_reads
 
 
 def _convert_action(action):
